@@ -30,7 +30,7 @@ EXPLANATION = (
     "data races in general; pointer values user code might print.")
 ASSUMPTIONS = ["intern tables of immutable contexts keyed by schema do not change behaviour (they only share identical immutable data)",
                "building executors concurrently from several threads is outside the property (it speaks of executors RUNNING concurrently)"]
-DECIDED = ["a logical time ignores the wall clock", "b fresh storage per executor; global state copied in", "c no run-specific process globals (census)",
+DECIDED = ["e intern-table lookups cover every interned field", "a logical time ignores the wall clock", "b fresh storage per executor; global state copied in", "c no run-specific process globals (census)",
            "c2 no process-wide counter reaches an output (known finding F-C07-1)", "d shared caches use their lock; no registry mutation while running",
            "e no hash-order decisions (shared)"]
 NOT_DECIDED = ["byte-for-byte trace equality", "general data-race freedom", "interning-order effects on printed pointers"]
@@ -55,6 +55,15 @@ STATICS = {
     ("node.cpp", "node_runtime_registry", "registry"): "node type registry (build time)",
     ("service_node.cpp", "next_request_id", "next"): "process-wide request-id counter (see C07.c2 / F-C07-1)",
     ("shared_output_node.cpp", "register_shared_output_config", "configs"): "intern table of immutable shared-output configs",
+}
+# plain namespace-scope mutable variables (no static / thread_local): one per process, shared by every thread
+GLOBALS = {
+    ("table_impl.cpp", "g_table_type_ops_overrides"): "table type-ops overrides keyed by schema (see C07.d: unsynchronised)",
+    ("table_impl.cpp", "g_layouts"): "table layout cache keyed by (schema, date key, as-of key) (see C07.d: unsynchronised)",
+    ("table_impl.cpp", "g_layouts_generation"): "registry generation the table caches were built against",
+    ("evaluation_trace.cpp", "print_all_values_"): "out-of-class definition of the atomic diagnostic flag",
+    ("evaluation_trace.cpp", "use_logger_"): "out-of-class definition of the atomic diagnostic flag",
+    ("logger.cpp", "g_logger"): "process-wide logger handle (observability only; installed by configuration)",
 }
 CONTEXT_TABLE_RE = re.compile(r"\w+_contexts|intern_race_context")
 
@@ -113,6 +122,19 @@ def check(run: Run) -> None:
             run.finding("C07.c", f"static:{key[0]}:{key[1]}:{name}", f"new mutable static `{decl}` in {fn_} ({rel}): process-wide state can carry "
                         f"information from one run to the next", loc=f"{rel}:{line}")
         run.sample({"rule": "C07.c", "statics": len(xs)})
+        gs = R.namespace_globals(t, RT_DIRS)
+        run.sites(len(gs), 4, "namespace-scope globals")
+        for rel, line, name, decl in gs:
+            run.count(1)
+            if (rel.split("/")[-1], name) in GLOBALS:
+                continue
+            run.finding("C07.c", f"global:{rel.split('/')[-1]}:{name}", f"new mutable namespace-scope variable `{decl}` ({rel}) without static/thread_local "
+                        "storage: one instance per process, shared by every thread and every run", loc=f"{rel}:{line}")
+        # the confirmed thread-local scope markers must stay thread_local
+        tl = {(k[0], k[2]) for k, v in STATICS.items() if v.startswith("thread-local")}
+        have = {(rel.split("/")[-1], name) for rel, line, fn_, name, decl in xs if decl.startswith("thread_local")}
+        for k in sorted(tl - have):
+            run.finding("C07.c", f"not-thread-local:{k[0]}:{k[1]}", f"`{k[1]}` ({k[0]}) is classified as a per-thread marker but is no longer declared thread_local", loc=k[0])
 
     with run.obligation("C07.c2", "K11", "no process-wide counter reaches a node output"):
         xs = R.mutable_statics(t, RT_DIRS)
@@ -200,8 +222,52 @@ def check(run: Run) -> None:
         if not ifs or cn(ifs[0].cond) != "!types_compiled_" or not R.calls(ifs[0].then, "make_types"):
             run.finding("C07.d", "GraphBuilder::root_type:cache", "type compilation must be cached behind types_compiled_", loc=GRAPH)
 
+    with run.obligation("C07.e", "K9", "process-wide intern tables of node contexts are looked up by EVERY field the interned context is built from, so a "
+                        "context built for one graph is never handed to a differently configured graph built later in the same process"):
+        n = 0
+        for rel in t.all_files():
+            if not any(rel.startswith(p) for p in RT_DIRS):
+                continue
+            fi = t.file(rel)
+            for fd in fi.funcs:
+                if fd.body is None:
+                    continue
+                body = fi.text(fd.body[0], fd.body[1])
+                if "find_if" not in body or "make_unique" not in body:
+                    continue
+                fa = R.parse(run, fd, strict=False)
+                cn = R.aliases_of(fa)
+                fis = [c for c in R.calls(fa) if R.callee_name(c).split("::")[-1] == "find_if"]
+                mk = [c for c in R.calls(fa) if "make_unique" in cn(c.fn)]
+                if len(fis) != 1 or len(mk) != 1 or not mk[0].args or not isinstance(mk[0].args[0], C.Init):
+                    continue
+                lam = [a for a in fis[0].args if isinstance(a, C.Lambda)]
+                if not lam:
+                    continue
+                n += 1
+                params = {nm for _, nm in fa.params if nm}
+                built = {}
+                for el in mk[0].args[0].elems:
+                    if isinstance(el, C.Desig):
+                        v = cn(el.value)
+                        m = re.fullmatch(r"(?:std::)?move\((\w+)\)|(\w+)", v)
+                        src = (m.group(1) or m.group(2)) if m else None
+                        if src in params:
+                            built[el.name] = src
+                ptxt = " ".join(cn(r.e) for r in R.find(lam[0].body, lambda x: isinstance(x, C.Return)) if r.e is not None).replace(" ", "")
+                lp = [nm for _, nm in lam[0].params if nm]
+                ent = lp[0] if lp else "context"
+                run.count(1, f"C07.e.{fd.name}")
+                for fld, src in sorted(built.items()):
+                    if not re.search(rf"{ent}(->|\.){fld}=={src}|{src}=={ent}(->|\.){fld}", ptxt):
+                        run.finding("C07.e", f"{fd.name}:lookup-ignores:{fld}", f"{fd.qual} interns a context built with {fld} = {src} but its lookup does not compare "
+                                    f"`{fld}`: the first graph built in the process decides it for every later graph ({ptxt})", loc=fa.loc(fis[0]))
+        run.sites(n, 5, "intern lookups")
+
 
 VARIANTS = [
+    {"id": "c-marker-loses-thread-local", "expect": "C07.c", "edits": [{"file": "src/hgraph/runtime/global_state.cpp", "find": "        thread_local GlobalContext *active_global_context = nullptr;", "replace": "        GlobalContext *active_global_context = nullptr;"}]},
+    {"id": "e-capture-context-lookup-ignores-same-cycle", "expect": "C07.e", "edits": [{"file": "src/hgraph/runtime/service_node.cpp", "find": "                    return context->path == path && context->storage_offset == storage_offset\n                        && context->same_cycle == same_cycle;", "replace": "                    return context->path == path && context->storage_offset == storage_offset;"}]},
     {"id": "a-sim-uses-wall", "expect": "C07.a", "edits": [{"file": EXEC, "find": "            const DateTime next = std::min(pending_time, state.end_time);\n            state.set_evaluation_time(next);\n            return next;", "replace": "            const DateTime next = std::min(std::max(pending_time, current_wall_time()), state.end_time);\n            state.set_evaluation_time(next);\n            return next;"}]},
     {"id": "b-shared-graph", "expect": "C07.b", "edits": [{"file": EXEC, "find": "                  graph(builder.graph_builder().make_root_graph(type.writable(executor_memory))),\n                  start_time(builder.start_time()),\n                  end_time(builder.end_time()),\n                  evaluation_time(start_time),\n                  cycle_wall_start(current_wall_time()),", "replace": "                  start_time(builder.start_time()),\n                  end_time(builder.end_time()),\n                  evaluation_time(start_time),\n                  cycle_wall_start(current_wall_time()),"}]},
     {"id": "c-new-static-in-executor", "expect": "C07.c", "edits": [{"file": EXEC, "find": "        [[nodiscard]] DateTime advance_simulation(SimulationExecutorStorage &state, DateTime next_scheduled_time)\n        {", "replace": "        [[nodiscard]] DateTime advance_simulation(SimulationExecutorStorage &state, DateTime next_scheduled_time)\n        {\n            static DateTime last_end_time = MIN_DT;\n            last_end_time = state.end_time;"}]},
